@@ -82,6 +82,7 @@ CONFIGS = {
     'quick': [{'retry': 30, 'idle_hold': 30}, {'retry': 10, 'idle_hold': 5}],
     'thorough': [{'retry': r, 'idle_hold': i} for r in (10, 30, 40) for i in (5, 30)],
 }
+FROM_EST = {'quick': 6, 'thorough': 8}
 DEPTH = {'quick': 8, 'thorough': 10}
 DEVK = {'quick': 1, 'thorough': 2}
 
@@ -94,6 +95,9 @@ def run(tier, seed):
     dev = []
     for cfg in CONFIGS[tier]:
         explore.bfs(h, cfg, DEPTH[tier], col, seed=seed, result=res, merge_all=(tier == 'thorough'), merge_lookahead=2)
+        # from a non-initial state: everything within FROM_EST events of a freshly Established session
+        explore.bfs(h, cfg, FROM_EST[tier], col, seed=seed, result=res, merge_all=(tier == 'thorough'), merge_lookahead=2,
+                    start=(('TICK', 0), ('CONN_OK', 0), ('RX', 0, 'OPEN_OK'), ('RX', 0, 'KA')))
         for kind in ('coop', 'lateclose', 'silent', 'refuse'):
             kk, win = (2, 10) if tier == 'quick' else (DEVK[tier], 24)
             st = explore.deviations(h, cfg, kk, 50, col, script_kw={'kind': kind}, window=win)
@@ -106,7 +110,7 @@ def run(tier, seed):
         'traces_validated_against_impl': res.transitions + sum(d['executions'] for d in dev),
         'samples': res.samples, 'max_depth': res.max_depth, 'closed': res.closed,
         'depth_cap_hit': res.depth_cap_hit, 'distinct_observation_classes': len(res.obs_classes),
-        'merges': res.merges, 'merges_checked': res.merges_checked, 'diverged_transitions': res.diverged,
+        'merges': res.merges, 'merges_checked': res.merges_checked, 'merges_refuted_and_undone': res.refinements[:5], 'n_merges_refuted': len(res.refinements), 'diverged_transitions': res.diverged,
         'cut_transitions': res.cut, 'configs': CONFIGS[tier], 'per_level': res.per_level[-DEPTH[tier]:],
         'deviation_bounded': dev, 'violation_keys': summary,
         'explanation': 'all event sequences to depth %d over the full menu (no scheduling restriction) on the real '
